@@ -73,6 +73,51 @@ def gen_universe(rng, tables, soft_only):
     return uni, {"name": "g0:root", "v": 1}
 
 
+def step_traces(vh, wdir, tablesf, fam):
+    """Step-level trace validation: the resolver (hook maven.VerifStep, tag verif) reports every step of its main loop; TLC
+    consumes the events as actions of MavenResolve.tla (spec/MavenStepTrace.tla, deadlock checking on: a step the model cannot
+    take stops the run at that line).  Information, not a verdict: a rejection says the specification no longer describes the code."""
+    import concurrent.futures as cf
+    import re
+    casef, stepsf = os.path.join(wdir, "step_cases.ndjson"), os.path.join(wdir, "steps.ndjson")
+    vlib.write_ndjson(casef, [{"universe": c["universe"], "root": c["root"]} for c in fam])
+    vlib.run_harness(vh, ["maven", tablesf, casef, os.path.join(wdir, "step_obs.ndjson")], env={"VERIF_STEPS": stepsf}, timeout=3000)
+    lines = open(stepsf).readlines()
+    starts = [i for i, ln in enumerate(lines) if ln.startswith('{"ev":"start"')]
+    if len(starts) != len(fam):
+        raise vlib.Trouble("step recording: %d start events for %d resolutions" % (len(starts), len(fam)))
+    per = 1500                                           # resolutions per TLC run
+    chunks = []
+    for k in range(0, len(starts), per):
+        lo, hi = starts[k], (starts[k + per] if k + per < len(starts) else len(lines))
+        f = "%s.%03d" % (stepsf, k // per)
+        with open(f, "w") as g:
+            g.writelines(lines[lo:hi])
+        chunks.append((f, lo))
+
+    def one(f, lo):
+        r = vlib.tlc("MavenStepTrace", os.path.join(vlib.SPEC, "MavenStepTrace.cfg"), wdir, env={"VERIF_TRACE": f}, workers=1, timeout=2400, heap="4g", deadlock=True)
+        if r.ok:
+            return r.distinct, None
+        if "Deadlock reached" in r.out:
+            m = re.findall(r"/\\ l = (\d+)", r.out)
+            at = lo + int(m[-1]) if m else None
+            return r.distinct, {"line": at, "event": json.loads(lines[at - 1]) if at and at <= len(lines) else None}
+        raise vlib.Trouble("MavenStepTrace: violation=%s error=%s\n%s" % (r.violation, r.error, r.out[-2000:]))
+    states, rejected = 0, []
+    with cf.ThreadPoolExecutor(max_workers=6) as ex:
+        for fut in [ex.submit(one, f, lo) for f, lo in chunks]:
+            st, rej = fut.result()
+            states += st
+            if rej:
+                rejected.append(rej)
+    for f, _ in chunks:
+        os.remove(f)
+    if rejected:
+        print("NOTE: the resolver's step trace is not a behaviour of MavenResolve.tla at %s (not a verdict)" % json.dumps(rejected[0])[:300])
+    return {"resolutions": len(fam), "events": len(lines), "states": states, "accepted": not rejected, "rejected_at": rejected[:3]}
+
+
 def run(ctx):
     pid = "C07"
     t0 = time.time()
@@ -108,6 +153,9 @@ def run(ctx):
             raise vlib.Trouble("MavenResolveMC_nearest: %s" % rn.error)
         design_cex = "TLC violates DoneNearest on the algorithm model after %d distinct states (expected: C07-F25 exists at design level)" % rn.distinct if rn.violation else \
                      "DoneNearest holds on the algorithm model (the design-level form of C07-F25 is gone)"
+    step_info = None
+    if not ctx.replay:
+        step_info = step_traces(vh, wdir, tablesf, mcases if ctx.tier == "quick" else mcases[::8])
     casef = os.path.join(wdir, "cases.ndjson")
     obsf = os.path.join(wdir, "obs.ndjson")
     vlib.run_harness_split(vh, "maven", tablesf, cases, casef, obsf, nparts=1 if ctx.replay else 6)
@@ -162,7 +210,7 @@ def run(ctx):
                    "non-trivial = resolved graph with >= 4 nodes; %d resolutions ended in a resolver error (not judged)" % errs,
            "samples": [{"root": s["root"], "artifacts": len(s["universe"]), "graph": s["graph"]}],
            "resolutions_abandoned_after_60s": abandoned, "known_findings_hit": {k: v[0] for k, v in verdict.hits.items()}, "exhaustive": False,
-           "algorithm_model": {"family_universes": nmodel, "states": mr_states, "real_resolver_differs_on": len(model_diff), "nearest_wins_on_the_model": design_cex}}
+           "algorithm_model": {"family_universes": nmodel, "states": mr_states, "real_resolver_differs_on": len(model_diff), "nearest_wins_on_the_model": design_cex, "step_traces": step_info}}
     vlib.write_evidence(pid, ctx.tier, ctx.seed, "model_checking", cov, time.time() - t0, violations=len(verdict.violations),
                         assumptions=["TLC 1.8.0", "VersionRange semantics and ComparableVersion order from Ranges.tla / Order.tla", "single registry",
                                      "nearest-wins is judged per artifact key that no declaration of the universe constrains with a range; the restart staleness of the clean tree is modelled as named deviations (C07-F25)"])
